@@ -11,7 +11,7 @@ LEVEL = 'exploration'
 DAYS = ['2019/12/30', '2019/12/31', '2020/01/01', '2020/02/28', '2020/02/29', '2020/03/01', '2021/02/28', '2021/03/01']
 RULE = ('Engine A: anchor days around month, year and leap boundaries (8 days) -> 8 single-day entries + 36 closed '
         'ranges = 44 entries; EVERY list of <= 2 | <= 3 entries (1 980 | 87 164 lists: all orders, duplications and '
-        'overlaps are in the list space; quick adds all 3 375 triples over a 15-entry sub-alphabet of 5 consecutive days; both tiers add all 1 296 4-entry lists over 3 consecutive days and all 1 024 5-entry lists over a 4-entry alphabet), the empty list; malformed entries (impossible dates, non-dates, empty string, '
+        'overlaps are in the list space; quick adds all 3 375 triples over a 15-entry sub-alphabet of 5 consecutive days; both tiers add all 1 296 4-entry lists over 3 consecutive days and all 1 024 5-entry lists over a 4-entry alphabet; HISTORIES of two calls: every ordered pair of lists of <= 2 entries over 3 consecutive days (1 764 pairs), the second call judged), the empty list; malformed entries (impossible dates, non-dates, empty string, '
         'three-part ranges, all 28 reversed ranges, wrong separators) each embedded at every position of valid lists of '
         'length <= 2. Oracle on expand_time_windows(find_days_to_exclude(list)): no duplicates, every element a '
         'midnight timestamp, day set == reference union of closed ranges (datetime.date ordinals); malformed => '
@@ -51,6 +51,12 @@ def cases(tier, seed):
     sub5 = ['2020/02/28', '2020/02/27 - 2020/02/29', '2020/03/01 - 2020/03/02', '2021/03/01']
     for combo in itertools.product(sub5, repeat=5):
         out.append({'list': list(combo)})
+    # NON-INITIAL state of the module: the pipeline has already expanded another list in this process (all ordered pairs of
+    # lists of <= 2 entries over the 6-entry alphabet of 3 consecutive days); the answer must not depend on that
+    small = [[a] for a in sub4] + [[a, b] for a in sub4 for b in sub4]
+    for prior in small:
+        for lst in small:
+            out.append({'prior': prior, 'list': lst})
     bad = list(MALFORMED) + ['%s - %s' % (b, a) for a, b in itertools.combinations(DAYS, 2)]
     for m in bad:
         out.append({'list': [m]})
@@ -65,8 +71,19 @@ def run_case(case):
     lst = case['list']
     exp = rdays.expand(lst)
     viol = []
+    if case.get('prior') is not None:
+        try:
+            utils.expand_time_windows(utils.find_days_to_exclude(case['prior']))
+        except ValueError:
+            pass
     try:
-        got = utils.expand_time_windows(utils.find_days_to_exclude(lst))
+        arg = list(lst)
+        windows = utils.find_days_to_exclude(arg)
+        wins_before = [(w.first_day, w.last_day) for w in windows]
+        got = utils.expand_time_windows(windows)
+        again = utils.expand_time_windows(windows)       # the same windows expanded a second time
+        if arg != lst or [(w.first_day, w.last_day) for w in windows] != wins_before or sorted(again) != sorted(got):
+            viol.append({'key': 'C20:arguments-modified-or-not-repeatable', 'msg': 'list %r: the pipeline modified its arguments or a second expansion of the same windows differs' % (lst,)})
     except ValueError:
         got = 'ValueError'
     except Exception as e:
@@ -90,7 +107,8 @@ def run_case(case):
         miss = sorted(exp - gs)[:3]
         extra = sorted(gs - exp)[:3]
         viol.append({'key': 'C20:day-set-differs', 'msg': 'list %r: missing %s, extra %s' % (
-            lst, [datetime.date.fromordinal(d).isoformat() for d in miss], [datetime.date.fromordinal(d).isoformat() for d in extra])})
+            lst, [datetime.date.fromordinal(d).isoformat() for d in miss], [datetime.date.fromordinal(d).isoformat() for d in extra])
+                     + (' (after the pipeline had expanded %r in the same process)' % (case['prior'],) if case.get('prior') is not None else '')})
     return {'viol': viol, 'nontrivial': len(lst) >= 2, 'outcome': min(len(exp), 30)}
 
 
